@@ -86,6 +86,7 @@ fn c16_channels(tier: Tier) -> &'static [usize] {
 
 fn alphabet(cfg: &Cfg, with_partial: bool) -> Vec<Op> {
     let mut a = vec![Op::P];
+
     if cfg.kind.is_async() {
         a.push(Op::R(cfg.max_rel, true));
         a.push(Op::R(1.0 / cfg.max_rel, false));
@@ -196,7 +197,18 @@ fn c11_one(acc: &mut Acc, cfg: &Cfg, depth: usize, journal: Option<&JournalFile>
     let n = cfg.channels;
     // (a) n channels == n single-channel twins
     let alpha = alphabet(cfg, true);
-    let hs = histories(&alpha, depth);
+    let mut hs = histories(&alpha, depth);
+    if n >= 2 {
+        // calls in which every channel is handed the very same input slice (pointer-equal: mono
+        // material routed to all channels), after and between calls with their own data
+        hs.extend([
+            vec![Op::P, Op::Pa],
+            vec![Op::P, Op::Pa, Op::P],
+            vec![Op::Pa, Op::P, Op::Pa],
+            vec![Op::P, Op::P, Op::Pa, Op::Pa],
+            vec![Op::P, Op::Z, Op::Pa, Op::P],
+        ]);
+    }
     let mut single = cfg.clone();
     single.channels = 1;
     let mut hist_no = 0usize;
